@@ -288,7 +288,26 @@ func genNamed(r *rand.Rand, s *Schema, name string, depth int, o ValueOpts) *Val
 		return EnumV(td.EnumValues[r.IntN(len(td.EnumValues))].Name)
 	case Scalar:
 		// custom scalar: any value kind is acceptable
-		switch r.IntN(5) {
+		switch r.IntN(7) {
+		case 5, 6:
+			// same spelling, different kind: a string whose content spells a number / boolean / null
+			// next to that very number / boolean (variable extraction de-duplicates literals by value)
+			switch r.IntN(7) {
+			case 0:
+				return IntV(1)
+			case 1:
+				return StrV("1")
+			case 2:
+				return BoolV(true)
+			case 3:
+				return StrV("true")
+			case 4:
+				return StrV("null")
+			case 5:
+				return StrV("false")
+			default:
+				return BoolV(false)
+			}
 		case 0:
 			return genInt(r, o)
 		case 1:
